@@ -14,15 +14,15 @@ import (
 // io.Reader / io.Writer contracts. Incoming bytes are injected by the harness (chunk by chunk),
 // outgoing bytes are captured per Write call.
 type zzStream struct {
-	in      chan []byte
-	pending []byte
-	closed  chan struct{}
-	once    sync.Once
-	mu      sync.Mutex
-	out     []byte
-	writes  int
-	failAt  int // fail the k-th Write (1-based) when > 0
-	eof     bool
+	in          chan []byte
+	pending     []byte
+	closed      chan struct{}
+	once        sync.Once
+	mu          sync.Mutex
+	out         []byte
+	writes      int
+	failAt      int // fail the k-th Write (1-based) when > 0
+	eof         bool
 	closeErr    bool // Close reports an error (the connection is closed nevertheless)
 	blockWrites int  // when > 0: the n-th Write (1-based) and later ones block until the stream is closed
 }
